@@ -264,6 +264,17 @@ def rule_parity(ctx, R):
             pass
         ne += 1
         same = sa == ea
+        if not same and sa and sa < ea:
+            # parser arms merged for sibling commands (`"LPUSH" | "RPUSH" => parse_push(name, ..)`):
+            # the script-side reach of the shared arm is the union over the siblings; what it
+            # has beyond the direct command must be what the siblings' direct arms reach
+            sibs = [n2 for n2 in CATALOGUE if n2 != name and ex.get(n2) and ex[n2]["handled"] and ex[n2]["reach"] == e_arm["reach"] and arms.get(n2)]
+            allowed = set()
+            for n2 in sibs:
+                allowed |= leaf(arms[n2]["reach"] & api)
+            if sibs and (ea - sa) <= allowed:
+                same = True
+                R.note("%s: script-side arm shared with %s; engine-set compared as a union" % (name, sibs))
         R.inst(PARSE, "engine-set:" + name, {"command": name, "same_engine_methods": same})
         if not same and name in ENGINE_SET_EXCEPTIONS:
             R.note("%s: reviewed exception -- %s" % (name, ENGINE_SET_EXCEPTIONS[name][1])); continue
